@@ -646,13 +646,17 @@ func (ls *LanceroSource) launchLanceroReader() {
 	ls.buffersChan = make(chan BuffersChanType, 100)
 	ls.readPeriod = 50 * time.Millisecond
 	ls.readPeriod = verifReadPeriod(ls.readPeriod)
+	verifSync("spawn", "prod", nil)
 	go func() {
+		verifSync("start", "prod", nil)
 		ticker := time.NewTicker(ls.readPeriod)
 		lastSuccesfulRead := time.Now()
 		discardedBuffer := false // a buffer was released unread; the next block must report a data drop
 		for {
 			select {
 			case <-ls.abortSelf:
+				verifSync("recvc", "abort", ls.abortSelf)
+				verifSync("close", "bufc", ls.buffersChan)
 				close(ls.buffersChan)
 				return
 
@@ -770,6 +774,7 @@ func (ls *LanceroSource) launchLanceroReader() {
 				if len(ls.buffersChan) == cap(ls.buffersChan) {
 					panic(fmt.Sprintf("internal buffersChan full, len %v, capacity %v", len(ls.buffersChan), cap(ls.buffersChan)))
 				}
+				verifSync("send", "bufc", ls.buffersChan)
 				ls.buffersChan <- BuffersChanType{datacopies: datacopies, lastSampleTime: lastSampleTime,
 					timeDiff: timeDiff, totalBytes: totalBytes, dataDropDetected: dataDropDetected}
 				if !dataDropDetected {
@@ -790,7 +795,9 @@ func (ls *LanceroSource) launchLanceroReader() {
 // to reason about.
 func (ls *LanceroSource) getNextBlock() chan *dataBlock {
 	panicTime := time.Duration(10 * time.Second)
+	verifSync("spawn", "asm", nil)
 	go func() {
+		verifSync("start", "asm", nil)
 		for {
 			// This select statement was formerly the ls.blockingRead method
 			select {
@@ -811,19 +818,25 @@ func (ls *LanceroSource) getNextBlock() chan *dataBlock {
 			case buffersMsg, ok := <-ls.buffersChan:
 				//  Check is buffersChan closed? Recognize that by receiving zero values and/or being drained.
 				if buffersMsg.datacopies == nil || !ok {
+					verifSync("recvc", "bufc", ls.buffersChan)
 					block := new(dataBlock)
 					if err := ls.stop(); err != nil {
 						block.err = err
+						verifSync("send", "nb", ls.nextBlock)
 						ls.nextBlock <- block
 					}
+					verifSync("close", "nb", ls.nextBlock)
 					close(ls.nextBlock)
 					return
 				}
+				verifSync("recv", "bufc", ls.buffersChan)
 				// ls.buffersChan contained valid data, so act on it.
 				block := ls.distributeData(buffersMsg)
 				ls.dataBlockCount++ // set to 0 in SampleCard
+				verifSync("send", "nb", ls.nextBlock)
 				ls.nextBlock <- block
 				if block.err != nil {
+					verifSync("close", "nb", ls.nextBlock)
 					close(ls.nextBlock)
 				}
 				return
@@ -848,6 +861,8 @@ func (ls *LanceroSource) distributeData(buffersMsg BuffersChanType) *dataBlock {
 	segDuration := time.Duration(roundint((1e9 * float64(framesUsed-1)) / ls.sampleRate))
 	firstTime := lastSampleTime.Add(-segDuration)
 	block := new(dataBlock)
+	verifAcc("blk", block, true)
+	verifAcc("nfn", &ls.nextFrameNum, true)
 	nchan := len(datacopies)
 	block.segments = make([]DataSegment, nchan)
 
@@ -906,6 +921,7 @@ func (ls *LanceroSource) distributeData(buffersMsg BuffersChanType) *dataBlock {
 			signed:          !isFeedbackChannel,
 			droppedFrames:   droppedFrames,
 		}
+		verifAcc("seg", &block.segments[channelIndex], true)
 		block.segments[channelIndex] = seg
 		block.nSamp = len(data)
 	}
@@ -945,6 +961,7 @@ func (ls *LanceroSource) stop() error {
 
 // SetCoupling set up the trigger broker to connect err->FB, FB->err, or neither
 func (ls *LanceroSource) SetCoupling(status CouplingStatus) error {
+	verifAcc("bcon", ls.broker, true)
 	// Notice that status == NoCoupling will visit both else clauses in this
 	// function and therefore delete the connections from either sort of coupling.
 	// It is safe to call DeleteConnection on pairs that are unconnected.
